@@ -79,6 +79,19 @@ def items(tier, seed):
     for _ in range(nr):
         k = rnd.choice([2, 2, 3, 3, 4] if tier != 'quick' else [2, 3, 3])
         lists.append([rnd.choice(POOL_RAT) for _ in range(k)])
+    if tier != 'quick':
+        # second family: powers of few primes with mixed multiplicities and signs (rank >= 2 lattices whose generators need gcd steps), up to 5 bases
+        rnd2 = random.Random(7100 + seed)
+        for _ in range(900):
+            k = rnd2.choice([3, 3, 4, 4, 5])
+            primes = rnd2.sample([2, 3, 5], rnd2.choice([1, 2, 2, 3]))
+            l = []
+            for _j in range(k):
+                v = sp.Integer(1)
+                for p_ in primes: v *= sp.Integer(p_) ** rnd2.randint(-3, 5)
+                if rnd2.random() < 0.25: v = -v
+                l.append(str(v))
+            lists.append(l)
     for _ in range(8 if tier == 'quick' else 80):
         k = rnd.choice([2, 3])
         lists.append([rnd.choice(POOL_ALG) for _ in range(k)])
